@@ -246,7 +246,13 @@ impl Prop for C15 {
         let mut r = Rng::new(seed);
         let src = match r.below(12) {
             0..=3 => IoSrc::Mux(small_scenario(r.next_u64() >> 16)),
-            4 => IoSrc::Seed(SeedSpec::MuxShuffled { seed: r.below(1 << 16) }),
+            4 => {
+                if r.chance(1, 2) {
+                    IoSrc::Seed(SeedSpec::Hybrid { seed: r.below(1 << 16) })
+                } else {
+                    IoSrc::Seed(SeedSpec::MuxShuffled { seed: r.below(1 << 16) })
+                }
+            }
             5 => IoSrc::Seed(SeedSpec::Canned("minimal.mp4".into())),
             6 => IoSrc::Seed(SeedSpec::CannedFrag),
             7 | 8 => IoSrc::Seed(SeedSpec::Frag { seed: r.below(1 << 16) }),
